@@ -19,7 +19,7 @@ from typing import Any, Dict, List, Optional, Set, Tuple
 
 from .. import rx
 from ..callgraph import CallGraph, Site, Ty
-from ..core import AnalysisError, ClassInfo, Ctx, External, FuncInfo, calls_in, dotted, norm, parents_map, walk_no_nested
+from ..core import AnalysisError, ClassInfo, Ctx, External, FuncInfo, body_without_docstring, calls_in, dotted, norm, parents_map, walk_no_nested
 from ..excflow import ExcFlow, Witness, exc_name
 from ..peg import Grammar
 
@@ -428,6 +428,11 @@ class Implicit:
                         out.append(("ext:KeyError", n, "literal table[%s]" % norm(n.slice)[:30]))
                 elif isinstance(n.slice, ast.Constant) and isinstance(n.slice.value, int) or (isinstance(n.slice, ast.UnaryOp) and isinstance(n.slice.operand, ast.Constant)):
                     v = norm(n.value)
+                    if isinstance(n.value, ast.Name) and fn.name.startswith("visit_"):
+                        # a local that names (a part of) the visited children
+                        binds = [st_ for st_ in walk_no_nested(fn.node) if isinstance(st_, ast.Assign) and any(isinstance(t_, ast.Name) and t_.id == n.value.id for t_ in st_.targets)]
+                        if len(binds) == 1 and norm(binds[0].value).startswith("children"):
+                            v = norm(binds[0].value)
                     if v in ("children", "literal", "path_tuple", "path_tuple_with_result", "check_result", "self._structs") or v.startswith("children["):
                         continue  # grammar arity / fixed-size tuples / non-empty by construction (assumption A-arity)
                     if isinstance(n.value, (ast.Tuple, ast.List, ast.Call)) and not (isinstance(n.value, ast.Call) and dotted(n.value.func) in ("list",)):
@@ -579,9 +584,43 @@ class Implicit:
         self.discharged.append({"site": "%s:%d" % (fn.short, getattr(n, "lineno", 0)), "op": norm(n)[:60], "discharge": why})
         return True
 
+    def _expand_helper_call(self, fn: FuncInfo, e: ast.AST) -> ast.AST:
+        """`helper(args)` -> the helper's single returned expression with the arguments substituted (one level; module-level
+        functions and methods called on self), so that an extracted one-liner reads like the expression it replaced"""
+        from ..decide import substitute
+
+        if not (isinstance(e, ast.Call) and isinstance(e.func, (ast.Name, ast.Attribute)) and not e.keywords and not any(isinstance(a, ast.Starred) for a in e.args)):
+            return e
+        callee = None
+        try:
+            if isinstance(e.func, ast.Attribute) and isinstance(e.func.value, ast.Name) and e.func.value.id in ("self", "cls") and fn.cls is not None:
+                callee = self.repo.lookup_method(fn.cls, e.func.attr)
+            else:
+                callee = self.repo.resolve_expr(fn.module, e.func, fn.cls)
+        except Exception:
+            callee = None
+        if not isinstance(callee, FuncInfo):
+            return e
+        from ..decide import paths_of
+
+        try:
+            ps = paths_of(callee.node)
+        except Exception:
+            return e
+        rets = [p_ for p_ in ps if p_.kind == "return"]
+        if len(rets) != 1 or len(ps) != 1 or rets[0].value is None:
+            return e
+        returned = rets[0].value  # temporaries substituted
+        params = [a.arg for a in callee.node.args.posonlyargs + callee.node.args.args]
+        if callee.cls is not None and not callee.is_static and params:
+            params = params[1:]
+        if len(params) != len(e.args):
+            return e
+        return substitute(returned, dict(zip(params, e.args)))
+
     def _text_discharge(self, fn: FuncInfo, call: ast.Call, ctor: str) -> bool:
         """int(node.text...) / Fraction(node.text...) in a visitor: regex language of the terminal within the ctor's syntax."""
-        arg = call.args[0]
+        arg = self._expand_helper_call(fn, call.args[0])
         src = norm(arg)
         if fn.cls is not None and fn.name.startswith("visit_") and src.startswith("node.text"):
             rule = fn.name[len("visit_"):]
@@ -717,6 +756,16 @@ class Implicit:
                     n_sites += 1
                     call = st.node
                     arg = call.args[idx] if 0 <= idx < len(call.args) and not any(isinstance(x, ast.Starred) for x in call.args) else next((k.value for k in call.keywords if k.arg == seq), None)
+                    # wrappers that keep the length (or, for the case mappings, at least non-emptiness)
+                    for _ in range(3):
+                        if isinstance(arg, ast.Call) and isinstance(arg.func, ast.Attribute) and not arg.args and arg.func.attr in ("lower", "upper", "casefold", "copy") and (need == 1 or arg.func.attr == "copy"):
+                            arg = arg.func.value
+                        elif isinstance(arg, ast.Call) and dotted(arg.func) in ("list", "tuple", "sorted") and len(arg.args) == 1:
+                            arg = arg.args[0]
+                        elif isinstance(arg, ast.Subscript) and isinstance(arg.slice, ast.Slice) and arg.slice.lower is None and arg.slice.upper is None:
+                            arg = arg.value
+                        else:
+                            break
                     if not isinstance(arg, ast.Name):
                         ok_all = False
                         continue
@@ -758,6 +807,19 @@ class Implicit:
                 return 1
             if isinstance(e.func, ast.Attribute) and e.func.attr == "copy":
                 return self._len_lb(fn, e.func.value, depth + 1)
+            # the result of a helper method / function of the repository: the weakest bound over what it returns
+            callee = None
+            try:
+                if isinstance(e.func, ast.Attribute) and isinstance(e.func.value, ast.Name) and e.func.value.id in ("self", "cls") and fn.cls is not None:
+                    callee = self.repo.lookup_method(fn.cls, e.func.attr)
+                elif isinstance(e.func, (ast.Name, ast.Attribute)):
+                    callee = self.repo.resolve_expr(fn.module, e.func, fn.cls)
+            except Exception:
+                callee = None
+            if isinstance(callee, FuncInfo) and not any(isinstance(n_, (ast.Yield, ast.YieldFrom)) for n_ in walk_no_nested(callee.node)):
+                rets = [r.value for r in walk_no_nested(callee.node) if isinstance(r, ast.Return) and r.value is not None]
+                lbs = [self._len_lb(callee, r, depth + 1) for r in rets]
+                return min(lbs) if rets and all(x is not None for x in lbs) else None  # type: ignore
             return None
         if isinstance(e, ast.Subscript) and isinstance(e.slice, ast.Slice) and e.slice.lower is None and e.slice.upper is None:
             return self._len_lb(fn, e.value, depth + 1)
